@@ -25,7 +25,7 @@ Your task: produce ONE realistic change (a plausible bug a maintainer could intr
       (takes about a minute; it must report 85 passed with your change applied).
 The change must NOT be one that ordinary use would expose at once (no crash on every call, no grossly wrong result on the default path). It should need something specific to manifest: an unusual input or parameter combination, a particular branch, a multi-step sequence of operations, a particular state/history, a rarely used option, or two cooperating sites. Prefer a change in the code the property is anchored in (or code it directly depends on). Keep it small (a few lines). Do not edit tests.{HINT}
 
-Also write a demonstration program {wt}/demo_{tag}.py (plain Python, run as `PYTHONPATH={wt} /venv/bin/python demo_{tag}.py`) that exercises the real cardillo code, checks the property on the specific inputs needed, and exits with status 0 when the property holds and status 1 (printing what failed) when it is violated. It must exit 0 on the UNCHANGED code and 1 WITH your change. Verify both yourself (use `git stash` / `git stash pop` or `git diff > patch.diff; git checkout -- cardillo; ...; git apply patch.diff`).
+Also write a demonstration program {wt}/demo_{tag}.py (plain Python, run as `PYTHONPATH={wt} /venv/bin/python demo_{tag}.py`) that exercises the real cardillo code, checks the property on the specific inputs needed, and exits with status 0 when the property holds and status 1 (printing what failed) when it is violated. It must exit 0 on the UNCHANGED code and 1 WITH your change. Verify both yourself (use `git diff -- cardillo > patch.diff; git checkout -- cardillo; ...; git apply patch.diff`; do NOT use `git stash`: the stash is shared with other checkouts of this repository).
 
 Deliverables, all inside {wt}:
   1. {wt}/patch.diff  - output of `git diff -- cardillo` with your change applied (the change must also stay applied in the worktree),
